@@ -1,5 +1,92 @@
-(* C12 - statements only. (grows) *)
-From Sbdf Require Import Obj Va VaFacts.
-Theorem C12_copy_is_equal : forall o, obj_ok o -> obj_copy o = Ok o.
-Proof. exact obj_copy_ok. Qed.
-Print Assumptions C12_copy_is_equal.
+(* C12 — inputs are copied, outputs are independent, everything is released exactly once.
+   Over the L2 ledger model (Mem.v), which retells sbdf_obj_create_arr / sbdf_obj_copy /
+   sbdf_read_objects (one skeleton), sbdf_obj_destroy, sbdf_va_create_plain, sbdf_va_get_values
+   (plain) and sbdf_va_destroy with the same allocations, stores and frees on every exit path.
+   A Fault (null dereference, use after free, invalid or double free, out-of-bounds cell) is a
+   possible outcome of the model; the theorems say it never occurs — for every state of the failure
+   oracle.  "fresh" blocks are blocks that did not exist before the call: storage that nothing
+   else can reach.  The metadata / slice containers are covered by the sanitizer run only.
+   Statements only; proofs in MemFacts.v. *)
+From Sbdf Require Import Mem MemFacts.
+
+(* a constructor either returns an object made of fresh blocks only, leaving every other block
+   untouched, or fails, returns null and leaves the heap exactly as it found it *)
+Theorem C12_construct : forall ty count s, fresh_inv s ->
+  match obj_build ty count s with
+  | Flt _ => False
+  | Val (st, p) s' =>
+    fresh_inv s' /\ mfail s' = mfail s /\
+    ((st = SBDF_OK /\ exists t blocks, p = Some t /\ obj_at s' t ty count blocks /\ all_fresh s blocks /\
+        (forall x, ~ In x blocks -> find x s' = find x s)) \/
+     (st <> SBDF_OK /\ p = None /\ same_heap s s'))
+  end.
+Proof. exact obj_build_spec. Qed.
+Print Assumptions C12_construct.
+
+(* a copy shares no block with its source, and the source is unchanged: later modification or
+   release of either cannot reach the other *)
+Theorem C12_copy_independent : forall s src ty count blocks, fresh_inv s -> obj_at s src ty count blocks ->
+  match obj_copy_m (Some src) s with
+  | Flt _ => False
+  | Val (st, p) s' =>
+    fresh_inv s' /\
+    ((st = SBDF_OK /\ exists t cblocks, p = Some t /\ obj_at s' t ty count cblocks /\ all_fresh s cblocks /\
+        (forall b, In b blocks -> ~ In b cblocks) /\ obj_at s' src ty count blocks /\
+        (forall x, ~ In x cblocks -> find x s' = find x s)) \/
+     (st <> SBDF_OK /\ p = None /\ same_heap s s'))
+  end.
+Proof. exact obj_copy_spec. Qed.
+Print Assumptions C12_copy_independent.
+
+(* the documented destroy function releases exactly the blocks of the object, each once *)
+Theorem C12_destroy_releases_exactly : forall s t ty count blocks, fresh_inv s -> obj_at s t ty count blocks ->
+  exists s', obj_destroy (Some t) s = Val tt s' /\ released blocks s s' /\ fresh_inv s' /\ mnext s' = mnext s /\ mfail s' = mfail s.
+Proof. exact obj_destroy_spec. Qed.
+Print Assumptions C12_destroy_releases_exactly.
+
+Theorem C12_construct_then_destroy : forall ty count s, fresh_inv s ->
+  match obj_build ty count s with
+  | Flt _ => False
+  | Val (st, p) s1 =>
+    match obj_destroy p s1 with
+    | Flt _ => False
+    | Val _ s2 => same_heap s s2 /\ (st <> SBDF_OK -> p = None /\ same_heap s s1)
+    end
+  end.
+Proof. exact obj_build_destroy. Qed.
+Print Assumptions C12_construct_then_destroy.
+
+(* value arrays own a copy of the array they were created from; extraction returns another copy *)
+Theorem C12_value_array_owns_copy : forall s src ty count blocks, fresh_inv s -> obj_at s src ty count blocks ->
+  match va_create_plain_m (Some src) s with
+  | Flt _ => False
+  | Val (st, p) s' =>
+    fresh_inv s' /\
+    ((st = SBDF_OK /\ exists h vblocks, p = Some h /\ va_at s' h ty count vblocks /\ all_fresh s vblocks /\
+        (forall b, In b blocks -> ~ In b vblocks) /\ obj_at s' src ty count blocks /\
+        (forall x, ~ In x vblocks -> find x s' = find x s)) \/
+     (st <> SBDF_OK /\ p = None /\ same_heap s s'))
+  end.
+Proof. exact va_create_plain_spec. Qed.
+Print Assumptions C12_value_array_owns_copy.
+
+Theorem C12_value_extraction_independent : forall s h ty count blocks, fresh_inv s -> va_at s h ty count blocks ->
+  match va_get_values_plain_m (Some h) s with
+  | Flt _ => False
+  | Val (st, p) s' =>
+    fresh_inv s' /\
+    ((st = SBDF_OK /\ exists t cb, p = Some t /\ obj_at s' t ty count cb /\ all_fresh s cb /\
+        (forall b, In b blocks -> ~ In b cb) /\ va_at s' h ty count blocks) \/
+     (st <> SBDF_OK /\ p = None /\ same_heap s s'))
+  end.
+Proof. exact va_get_values_plain_spec. Qed.
+Print Assumptions C12_value_extraction_independent.
+
+Theorem C12_value_array_destroy : forall s h ty count blocks, fresh_inv s -> va_at s h ty count blocks ->
+  exists s', va_destroy (Some h) s = Val tt s' /\ released blocks s s' /\ fresh_inv s'.
+Proof. exact va_destroy_spec. Qed.
+Print Assumptions C12_value_array_destroy.
+
+(* the hypotheses are met by the empty heap, under every oracle *)
+Example C12_nonvacuous : forall fail, fresh_inv (mst0 fail).
+Proof. exact fresh_inv_init. Qed.
